@@ -19,6 +19,17 @@ Theorem C10_accepted_test_never_panics :
   try_new DE D tc = NewOk DE st0 -> forall fuels : list nat, ~ run_panics tc G DE D w_default fuels st0).
 Proof. exact accepted_test_never_panics. Qed.
 
+(* ... also for a caller that goes on after error items of EVERY kind (the state of the iterator after an error,
+   evaluation errors of the program included, is part of the model: proofs/AfterErrorProof.v) *)
+Theorem C10_never_panics_through_errors :
+  forall (s : text) (p : parsed) (sigs0 : list signal) (tc : testcase),
+  parse s = Ok p ->
+  wf_signals sigs0 ->
+  with_signals p sigs0 = Ok tc ->
+  forall (G : gen) (DE : Type) (D : driver DE) (w_default : bool) (st0 : istate),
+  try_new DE D tc = NewOk DE st0 -> forall fuels : list nat, ~ run_panics_e tc G DE D w_default fuels st0.
+Proof. exact accepted_test_never_panics_through_errors. Qed.
+
 (* also after next() has returned None *)
 Theorem C10_also_after_none :
   forall (s : text) (p : parsed) (sigs0 : list signal) (tc : testcase),
@@ -117,3 +128,4 @@ Check C10_accepted_test_never_panics.
 Print Assumptions C10_accepted_test_never_panics.
 Print Assumptions C10_also_after_none.
 Print Assumptions C10_error_items.
+Print Assumptions C10_never_panics_through_errors.
